@@ -8,7 +8,7 @@
    resulting stack and alt stack).  Hash functions are universally quantified.
    Statements only; proofs in Proofs/OpP.v, Proofs/ConformP.v, Proofs/InterpP.v. *)
 From V Require Import Base.Prelude Base.Ints Model.Script Model.Op Model.Interp Spec.Consensus
-  Proofs.OpP Proofs.ConformP Proofs.StackOkP Proofs.InterpP Proofs.ProgramP.
+  Proofs.OpP Proofs.ConformP Proofs.StackOkP Proofs.InterpP Proofs.ProgramP Proofs.P2shP Proofs.FlagsP.
 
 (* ------------------------------------------------------------------ (1) number codec *)
 
@@ -176,6 +176,28 @@ Proof.
   now apply program_conformance.
 Qed.
 Print Assumptions C07_program_conformance_verdict.
+
+(* Every combination of the keyword flags, in particular the defaults allow_p2sh=True,
+   allow_witness=True: the verdict function then excludes (OutOfScope) the byte patterns the
+   library special-cases — statically every script that has OP_HASH160, a 20-byte push and
+   OP_EQUAL as a subsequence (the library's command list is always a subsequence of the script, so
+   its P2SH rule cannot fire on any other script), dynamically the witness-program stack shapes. *)
+Theorem C07_program_conformance_flags :
+  forall (ripemd160 sha1 sha256 : bytes -> bytes),
+  (forall x, bytes_ok (ripemd160 x)) -> (forall x, bytes_ok (sha1 x)) -> (forall x, bytes_ok (sha256 x)) ->
+  forall c (allow_p2sh allow_witness : bool) p,
+  wf_prog p = true ->
+  rel (evaluate (lib_table ripemd160 sha1 sha256) c allow_p2sh allow_witness (flatten p))
+      (consensus_verdict ripemd160 sha1 sha256 (to_ctx c) allow_p2sh allow_witness (flatten p)).
+Proof. exact program_conformance_flags. Qed.
+Print Assumptions C07_program_conformance_flags.
+
+(* without the P2SH pattern the flag allow_p2sh changes nothing, for every command list *)
+Theorem C07_p2sh_flag_irrelevant : forall table c aw f cmds s a,
+  mentions_p2sh cmds = false ->
+  eval_loop table c true aw f cmds s a = eval_loop table c false aw f cmds s a.
+Proof. exact p2sh_flag_irrelevant. Qed.
+Print Assumptions C07_p2sh_flag_irrelevant.
 
 (* the loop of Script.evaluate terminates within the fuel the model gives it: any larger fuel
    gives the same outcome, for every command list (well nested or not) *)
